@@ -4,7 +4,7 @@ from __future__ import annotations
 import ast
 import typing as T
 
-from sa import relang as rl, shapes
+from sa import formats, relang as rl, shapes
 from sa.boolfn import BF
 from sa.model import AnalysisError, call_arg, const_str, unparse, walk_no_nested
 from sa.pathcond import PathCond
@@ -164,6 +164,8 @@ def run(ctx) -> None:
                   f"{part} -> {z!r} (field {fld})", loc="src/bumpver/version.py", witness={"pattern": f"YYYY.MM[.{part}]", "value": z})
     from checks.c02 import omission_rule
     omission_rule(ctx, "R3")
+    # ... "exactly when all their parts are zero": every part that can be zero has its zero value, equal to what its absent group reads back as (C02/R5)
+    run_prerequisite(ctx, "C02", ("R5",), "R3")
     # the reset loop: "any field to the left of another can reset all to the right".  It lives in _iter_reset_field_items
     # (a generator) in the pinned tree; merged into _reset_rollover_fields it fills a dict instead - located by role
     rr = prog.function("v2version._reset_rollover_fields")
@@ -255,6 +257,16 @@ def run(ctx) -> None:
         by = {}
         for name, val, cond, _st in facts:
             by.setdefault(name, []).append((unparse(val), val, cond))
+        # cal_info itself turns "no date" into today: then None may be handed on as it is
+        ci_fn = prog.function(f"{eng}.cal_info")
+        ci_p = ci_fn.params[0] if ci_fn.params else "date"
+        ci_today = any(isinstance(n_, ast.If) and unparse(n_.test) == f"{ci_p} is None" and len(n_.body) == 1 and isinstance(n_.body[0], ast.Assign)
+                       and unparse(n_.body[0].targets[0]) == ci_p and unparse(n_.body[0].value) in ("version.TODAY", "TODAY") for n_ in ci_fn.node.body) \
+            or any(isinstance(n_, (ast.Assign, ast.AnnAssign)) and isinstance(n_.value, ast.IfExp) and (
+                (unparse(n_.value.test) == f"{ci_p} is None" and unparse(n_.value.body) in ("version.TODAY", "TODAY") and unparse(n_.value.orelse) == ci_p)
+                or (unparse(n_.value.test) == f"{ci_p} is not None" and unparse(n_.value.orelse) in ("version.TODAY", "TODAY") and unparse(n_.value.body) == ci_p))
+                and formats.date_name(ci_fn) != ci_p for n_ in ci_fn.node.body)
+        fresh_calls = {"cal_info(date)"} | ({"cal_info(maybe_date)", "cal_info(date=maybe_date)"} if ci_today else set())
         # date
         ok = False
         if "date" in by and none_atom:
@@ -262,15 +274,21 @@ def run(ctx) -> None:
             given = BF.false()
             other = False
             for txt, _v, cond in by["date"]:
-                if txt == "version.TODAY":
+                if txt == "version.TODAY" or (ci_today and txt == "None"):
                     today = today | cond
                 elif txt == "maybe_date":
                     given = given | cond
                 else:
                     other = True
             N = BF.var(none_atom)
-            ok = not other and today.project([none_atom]).equiv(N) and given.project([none_atom]).equiv(~N)
+            today_p, given_p = today.project([none_atom]), given.project([none_atom])
+            ok = not other and (today_p & ~N).is_false() and (~N).implies(given_p) \
+                and N.implies(today_p | (given_p if ci_today else BF.false())) and (ci_today or (given_p & N).is_false())
         elif "date" in by and len(by["date"]) == 1 and by["date"][0][0] == "maybe_date or version.TODAY":
+            ok = True
+        elif "date" in by and len(by["date"]) == 1 and by["date"][0][0] == "maybe_date" and ci_today:
+            ok = True
+        elif "date" not in by and ci_today and any(t_ in fresh_calls - {"cal_info(date)"} for t_, _v, _c in by.get("cur_cinfo", [])):
             ok = True
         ctx.check("R4", ok, f"{fq}: date = maybe_date, else version.TODAY", f"{fq}: the bump date is not the given --date (else today)",
                   f"{[(t, c.to_dnf(3)) for t, _v, c in by.get('date', [])]}", loc=fn.loc())
@@ -281,7 +299,7 @@ def run(ctx) -> None:
             fresh = BF.false()
             other = False
             for txt, v, cond in by["cur_cinfo"]:
-                if txt == "cal_info(date)":
+                if txt in fresh_calls:
                     fresh = fresh | cond
                 elif isinstance(v, ast.Call) and [unparse(x) for x in v.args] == ["old_vinfo"] and prog.resolve_call(fn, v, count=False).kind == "func":
                     pinned = pinned | cond
@@ -332,15 +350,16 @@ def run(ctx) -> None:
         # the value: the parsed field when it is present (0 included where 0 is a value of the field), today's otherwise -
         # decided by folding the argument for a present / absent / zero field
         e_in = e
-        roots_ = sorted({x.value.id for x in ast.walk(e_in) if isinstance(x, ast.Attribute) and isinstance(x.value, ast.Name) and x.attr == f})
+        roots_ = sorted({x.value.id for x in ast.walk(e_in) if isinstance(x, ast.Attribute) and isinstance(x.value, ast.Name) and x.attr in cal_fields})
         other = [r_ for r_ in roots_ if r_ != p_v]
         if p_v in roots_ and len(other) <= 1:
             samples_ = [None, 7] + ([0] if f in zero_fields else [])
             bad_ = None
             for v_ in samples_:
-                env_ = {p_v: _types.SimpleNamespace(**{f: v_})}
+                # every other field holds a value of its own (on both records): a read of a sibling field shows in the result
+                env_ = {p_v: _types.SimpleNamespace(**dict({g_: 1000 + i_ for i_, g_ in enumerate(cal_fields)}, **{f: v_}))}
                 if other:
-                    env_[other[0]] = _types.SimpleNamespace(**{f: 99})
+                    env_[other[0]] = _types.SimpleNamespace(**dict({g_: 2000 + i_ for i_, g_ in enumerate(cal_fields)}, **{f: 99}))
                 try:
                     got_ = prog.fold(vc.module, e_in, env_)
                 except AnalysisError:
@@ -369,7 +388,7 @@ def run(ctx) -> None:
     tags = prog.const("cli", "VALID_RELEASE_TAG_VALUES")
     t2p = prog.const("version", "PEP440_TAG_BY_TAG")
     tag_rx = rl.to_dfa(rl.from_regex(pats["TAG"]))
-    ctx.floor("R6", "accepted --tag values", len(tags), 6)
+    ctx.floor("R6", "accepted --tag values", len(tags), 1)          # a shorter list accepts less; the rules below are per accepted value
     for t in tags:
         ctx.check("R6", t in t2p, f"--tag {t}: key of PEP440_TAG_BY_TAG", f"cli.VALID_RELEASE_TAG_VALUES: '{t}' has no PEP 440 form (KeyError in _incr_numeric)", "", loc="src/bumpver/cli.py")
         ctx.check("R6", tag_rx.accepts(t), f"--tag {t}: recognised by the TAG regex", f"cli.VALID_RELEASE_TAG_VALUES: '{t}' is not recognised by PART_PATTERNS['TAG']", "", loc="src/bumpver/cli.py")
